@@ -113,3 +113,10 @@ pub proof fn lemma_eff_empty()
             exact_elems_pre(Seq::<Unifiable>::empty()), mll_pre(false, Seq::<Unifiable>::empty()),
 {
 }
+
+// what make_linked_list promises, as one predicate (a trigger for lemma_rename_list)
+pub open spec fn mll_post(vbar: bool, s: Seq<Unifiable>, res: Unifiable) -> bool {
+    &&& wf_list(res)
+    &&& elems(res) =~= lst_elems(vbar, s, 0)
+    &&& tail_of(res) == lst_tail(vbar, s, 0)
+}
